@@ -114,6 +114,48 @@ theorem first_execute_initialises_once (md : Module) (vm : Vm) :
 example : ∃ vm1, markP (Vm.new 10 16) 7 = .ok vm1 ∧ StackOk (Vm.new 10 16) ∧ (Vm.new 10 16).sp + 5 < (Vm.new 10 16).stackSize :=
   (markP_spec (Vm.new 10 16) 7 (by simp [StackOk, Vm.new]) (by decide) (by decide)).imp fun _ h => ⟨h.1, by simp [StackOk, Vm.new], by decide⟩
 
+/-! ### any history of calls -/
+
+/-- one `nev_execute` on an initialised machine, as the VM model performs it: the entry stub's MARK at the height the
+call found, any run that leaves the five frame words intact and ends in the stub's RET and HALT (`ok`), or any run that
+stops the machine with an unhandled exception or an error (`fail`) -/
+inductive Call : Vm → Vm → Prop
+  | ok (vm0 vm1 vm2 vm3 : Vm) (retAddr : Nat)
+      (hs0 : StackOk vm0) (h0 : -1 ≤ vm0.sp) (h1 : vm0.sp + 5 < vm0.stackSize)
+      (hm : markP vm0 retAddr = .ok vm1)
+      (hs2 : StackOk vm2) (hsz : vm2.stackSize = vm0.stackSize) (hfp : vm2.fp = vm0.sp + 5)
+      (hframe : ∀ k : Int, 1 ≤ k → k ≤ 5 → slot vm2 (vm0.sp + k) = slot vm1 (vm0.sp + k))
+      (hsp0 : 0 ≤ vm2.sp) (hsp : vm2.sp < vm2.stackSize) (hr : retP vm2 = .ok vm3) :
+      Call vm0 (haltEpilogue { vm3 with running := 0 })
+  | fail (vm0 vm : Vm) (hfail : vm.running ≠ 0) : Call vm0 (failEpilogue true vm0.sp vm)
+
+/-- a finite sequence of calls on one machine, successful and failing in any mix -/
+inductive History : Vm → Vm → Prop
+  | nil (vm : Vm) : History vm vm
+  | cons {a b c : Vm} : Call a b → History b c → History a c
+
+theorem call_restores_sp {a b : Vm} (h : Call a b) : b.sp = a.sp := by
+  cases h with
+  | ok vm1 vm2 vm3 retAddr hs0 h0 h1 hm hs2 hsz hfp hframe hsp0 hsp hr =>
+    obtain ⟨vm3', hr', hsp', _⟩ := execute_restores_sp a vm1 vm2 retAddr hs0 h0 h1 hm hs2 hsz hfp hframe hsp0 hsp
+    rw [hr] at hr'; cases hr'; exact hsp'
+  | fail vm hfail => exact (failed_execute_restores_sp a.sp vm hfail).1
+
+/-- **the N-th call uses no more VM stack than the first**: after any finite history of calls — successful, failing, in
+any order, of any entry points — the next call starts at the stack height the first one started at -/
+theorem history_restores_sp {a c : Vm} (h : History a c) : c.sp = a.sp := by
+  induction h with
+  | nil => rfl
+  | cons hc _ ih => rw [ih, call_restores_sp hc]
+
+/-- and the preparation of the next call (`beginExecute`) keeps it there -/
+theorem history_then_begin_restores_sp (md : Module) {a c : Vm} (h : History a c) : (beginExecute md c).sp = a.sp := by
+  rw [(first_execute_initialises_once md c).2.2.1, history_restores_sp h]
+
+/-- non-vacuity: a failing call followed by another failing call is a history on a concrete machine -/
+example : History (Vm.new 10 16) (failEpilogue true (Vm.new 10 16).sp { Vm.new 10 16 with running := 3 }) :=
+  .cons (.fail _ { Vm.new 10 16 with running := 3 } (by decide)) (.nil _)
+
 /-! ### compile side: no state survives from one compilation into the next -/
 
 /-- the translator recognised every shape it met -/
